@@ -97,6 +97,73 @@ fn finish_scn<E: MkEngine>(s: &Scn, mut enc: EncObj<E>, orig: &[Vec<u8>], mut de
     format!("{:016x}", util::fnv_many(parts))
 }
 
+/// Rounds of one decoder (and one encoder) that is moved to another thread BETWEEN rounds, with the same loss
+/// pattern in every round and fresh data each time. `hop` is called between rounds with the objects and must
+/// return them (possibly after sending them through another thread).
+fn multi_round<E: MkEngine>(seed: u64, rounds: usize, mut hop: impl FnMut(EncObj<E>, DecObj<E>) -> (EncObj<E>, DecObj<E>)) -> String {
+    let (k, r, sb) = (7usize, 4usize, 66usize);
+    let mut enc = EncObj::<E>::new(Kind::Default, k, r, sb).unwrap();
+    let mut dec = DecObj::<E>::new(Kind::Default, k, r, sb).unwrap();
+    let mut all: Vec<Vec<u8>> = Vec::new();
+    for round in 0..rounds {
+        let orig: Vec<Vec<u8>> = (0..k).map(|i| util::payload(seed + round as u64, 0x17, i as u64, sb)).collect();
+        for o in &orig {
+            enc.add(o).unwrap();
+        }
+        let rec: Vec<Vec<u8>> = enc.encode().unwrap().recovery_iter().map(<[u8]>::to_vec).collect();
+        // the same shards are lost in every round: originals 0, 2, 5
+        for i in [1usize, 3, 4, 6] {
+            dec.add_original(i, &orig[i]).unwrap();
+        }
+        for j in [0usize, 1, 3] {
+            dec.add_recovery(j, &rec[j]).unwrap();
+        }
+        {
+            let res = dec.decode().unwrap();
+            for (i, b) in res.restored_original_iter() {
+                assert_eq!(b, &orig[i][..], "round {round}: restored original {i} differs");
+                all.push(b.to_vec());
+            }
+        }
+        all.extend(rec);
+        let (e2, d2) = hop(enc, dec);
+        enc = e2;
+        dec = d2;
+    }
+    let parts: Vec<&[u8]> = all.iter().map(Vec::as_slice).collect();
+    format!("{:016x}", util::fnv_many(parts))
+}
+
+/// One more round with the travelling objects, on whatever thread calls it (same shape, same loss pattern).
+fn multi_round_one<E: MkEngine>(seed: u64, pair: &mut Option<(EncObj<E>, DecObj<E>)>) -> String {
+    let (enc, dec) = pair.take().unwrap();
+    let mut keep: Option<(EncObj<E>, DecObj<E>)> = Some((enc, dec));
+    let (k, r, sb) = (7usize, 4usize, 66usize);
+    let (mut enc, mut dec) = keep.take().unwrap();
+    let orig: Vec<Vec<u8>> = (0..k).map(|i| util::payload(seed, 0x18, i as u64, sb)).collect();
+    for o in &orig {
+        enc.add(o).unwrap();
+    }
+    let rec: Vec<Vec<u8>> = enc.encode().unwrap().recovery_iter().map(<[u8]>::to_vec).collect();
+    for i in [1usize, 3, 4, 6] {
+        dec.add_original(i, &orig[i]).unwrap();
+    }
+    for j in [0usize, 1, 3] {
+        dec.add_recovery(j, &rec[j]).unwrap();
+    }
+    let mut out = Vec::new();
+    {
+        let res = dec.decode().unwrap();
+        for (i, b) in res.restored_original_iter() {
+            assert_eq!(b, &orig[i][..], "helper round: restored original {i} differs");
+            out.push(b.to_vec());
+        }
+    }
+    *pair = Some((enc, dec));
+    let parts: Vec<&[u8]> = out.iter().map(Vec::as_slice).collect();
+    format!("{:016x}", util::fnv_many(parts))
+}
+
 fn print_init_events() {
     for e in verif::take_init_events() {
         println!(
@@ -174,6 +241,58 @@ pub fn child(args: &Args) -> i32 {
                         run_scn::<E>(&Scn { k: 3, r: 2, sb: 64, ..s }, seed + i as u64)
                     });
                     (i, s.engine, d)
+                }));
+            }
+            let mut status = 0;
+            for h in handles {
+                match h.join() {
+                    Ok((slot, engine, dig)) => println!("{}", Obj::new().str("ev", "result").int("slot", slot as i64).str("engine", engine).str("dig", &dig).done()),
+                    Err(p) => {
+                        println!("{}", Obj::new().str("ev", "panic").str("msg", &util::panic_message(&*p)).done());
+                        status = 3;
+                    }
+                }
+            }
+            print_init_events();
+            status
+        }
+        "pingpong" => {
+            // objects travel between two threads between rounds; another decoder with a different loss pattern
+            // works on the helper thread in between
+            let n = args.num("n", 2) as usize;
+            let mut handles = Vec::new();
+            for i in 0..n {
+                handles.push(std::thread::spawn(move || -> (usize, &'static str, String) {
+                    let engine = ENGINES[(i + seed as usize) % ENGINES.len()];
+                    let d = with_engine!(engine, E, {
+                        type Pair<E> = (EncObj<E>, DecObj<E>);
+                        let (to_helper, helper_rx) = mpsc::channel::<Pair<E>>();
+                        let (to_main, main_rx) = mpsc::channel::<Pair<E>>();
+                        let helper = std::thread::spawn(move || {
+                            // the helper thread owns a decoder of its own with another shape and loss pattern
+                            let s = Scn { engine: "naive", k: 5, r: 3, sb: 64, handover: false };
+                            while let Ok(pair) = helper_rx.recv() {
+                                let _ = run_scn::<E>(&s, seed + 77);
+                                // one round ON the helper thread, then back
+                                let mut boxed = Some(pair);
+                                let d = multi_round_one::<E>(seed + 1000, &mut boxed);
+                                let _ = d;
+                                if to_main.send(boxed.take().unwrap()).is_err() {
+                                    break;
+                                }
+                            }
+                        });
+                        let d = multi_round::<E>(seed + i as u64, 3, |enc, dec| {
+                            let s = Scn { engine: "naive", k: 3, r: 5, sb: 66, handover: false };
+                            let _ = run_scn::<E>(&s, seed + 78);
+                            to_helper.send((enc, dec)).unwrap();
+                            main_rx.recv_timeout(Duration::from_secs(30)).expect("objects back")
+                        });
+                        drop(to_helper);
+                        helper.join().unwrap();
+                        d
+                    });
+                    (i, engine, d)
                 }));
             }
             let mut status = 0;
@@ -320,7 +439,7 @@ fn expected(n: usize, seed: u64) -> Vec<(usize, String)> {
 /// Engine of a storm process: Naive (the only engine that touches EXP_LOG and SKEW directly from every
 /// thread) every other time, the others in turn.
 fn storm_engine(seed: u64) -> &'static str {
-    const ORDER: [&str; 8] = ["naive", "nosimd", "naive", "avx2", "naive", "ssse3", "default", "neonemu"];
+    const ORDER: [&str; 8] = ["naive", "nosimd", "naive", "naive", "avx2", "naive", "ssse3", "default"];
     ORDER[(seed / 3) as usize % ORDER.len()]
 }
 
@@ -329,6 +448,22 @@ fn expected_storm(n: usize, seed: u64) -> Vec<(usize, String)> {
         .map(|i| {
             let s = Scn { engine: storm_engine(seed), ..scenario(i, seed) };
             (i, with_engine!(s.engine, E, { run_scn::<E>(&Scn { k: 3, r: 2, sb: 64, ..s }, seed + i as u64) }))
+        })
+        .collect()
+}
+
+fn expected_pingpong(n: usize, seed: u64) -> Vec<(usize, String)> {
+    (0..n)
+        .map(|i| {
+            let engine = ENGINES[(i + seed as usize) % ENGINES.len()];
+            let d = with_engine!(engine, E, {
+                multi_round::<E>(seed + i as u64, 3, |enc, dec| {
+                    let mut boxed = Some((enc, dec));
+                    let _ = multi_round_one::<E>(seed + 1000, &mut boxed);
+                    boxed.take().unwrap()
+                })
+            });
+            (i, d)
         })
         .collect()
 }
@@ -454,11 +589,11 @@ pub fn main(args: &Args) -> i32 {
     // three kinds of processes: "race" (mixed engines, hand-overs), "nested" (one-shot calls feeding one-shot
     // calls), and "storm" (many threads, one engine, simultaneous first use; run two at a time so that the
     // threads of one storm really run simultaneously on this 16-core host)
-    let storms = args.num("storms", 2 * races as u64) as usize;
+    let storms = args.num("storms", 6 * races as u64) as usize;
     let mut jobs: Vec<(usize, &'static str, usize, u64)> = Vec::new();
     for i in 0..races {
-        let mode = if i % 5 == 2 { "nested" } else { "race" };
-        let n = if mode == "nested" { 3 } else { 2 + (i % 7) };
+        let mode = if i % 5 == 2 { "nested" } else if i % 5 == 4 { "pingpong" } else { "race" };
+        let n = if mode == "nested" { 3 } else if mode == "pingpong" { 2 } else { 2 + (i % 7) };
         jobs.push((i, mode, n, seed * 1000 + i as u64));
     }
     let storm_jobs: Vec<(usize, &'static str, usize, u64)> = (0..storms).map(|i| (races + i, "storm", if i % 2 == 0 { 16 } else { 32 }, seed * 1000 + 500 + i as u64)).collect();
@@ -491,6 +626,7 @@ pub fn main(args: &Args) -> i32 {
         let exp = match mode {
             "storm" => expected_storm(n, s),
             "nested" => expected_nested(n, s),
+            "pingpong" => expected_pingpong(n, s),
             _ => expected(n, s),
         };
         let nexpected = if mode == "race" { 2 * n } else { n };
